@@ -1429,8 +1429,8 @@ def instr_sweep(rng: random.Random, thorough: bool = False):
             add([(st, sv)], [('NIL', kt), ('SWAP',), ('ITER', ('SEQ', [('CONS',)]))])
             add([(mt, mv)], [('NIL', ('pair', kt, vt)), ('SWAP',), ('ITER', ('SEQ', [('CONS',)]))])
             add([(mt, mv)], [('MAP', ('SEQ', [('CDR',)]))])
-            add([(mt, mv)], [('MAP', ('SEQ', [('UNPAIR',), ('SWAP',), ('PAIR',)])), ('DUP', 1), ('SIZE',)])
             if mv[1]:
+                add([(mt, mv)], [('MAP', ('SEQ', [('UNPAIR',), ('SWAP',), ('PAIR',)])), ('DUP', 1), ('SIZE',)])
                 add([(mt, mv)], [('MAP', ('SEQ', [('CAR',)]))])          # changes the value type (non-empty map)
                 add([(mt, mv)], [('MAP', ('SEQ', [('CDR',), ('SOME',)]))])
             add([], [('EMPTY_SET', kt), ('PUSH', T_BOOL, ('bool', True)), ('PUSH', kt, gen_data(rng, kt)), ('UPDATE',)])
